@@ -3,11 +3,13 @@ from .common import COMMON_ASSUME
 CFG = {
     "props_module": "RpmVerif.Props.C01",
     "required_theorems": ["RpmVerif.C01.package_roundtrip", "RpmVerif.C01.metadata_write_parse", "RpmVerif.C01.metadata_fixpoint",
-                          "RpmVerif.C01.header_roundtrip", "RpmVerif.C01.lead_roundtrip"],
+                          "RpmVerif.C01.header_roundtrip", "RpmVerif.C01.lead_roundtrip",
+                          "RpmVerif.C01.wf_fixpoint", "RpmVerif.C01.cleared_fixpoint"],
     "trivial_branches": ["rejected-eof", "meta-rejected-eof"],
     "rule": "asset + fixture packages (package and metadata-only entry points) and seeded structure-aware packages: arbitrary lead fields, "
             "two headers of 0..12 entries over all 10 data types with unknown/duplicated/unsorted tags, in-range offsets, non-UTF-8 strings, "
-            "arbitrary reserved and padding bytes, store slack covering all sizes mod 8, empty/short payloads; 30% damaged or truncated inputs "
+            "arbitrary reserved and padding bytes, store slack covering all sizes mod 8, empty/short payloads; every 20th package (and every asset) also "
+            "with its signature header cleared (Header::clear) / replaced by Header::new_empty() in memory before writing (op pkgrtv); 30% damaged or truncated inputs "
             "(every value class of the magic/version bytes) which are mostly rejected (property silent: dontcare). Non-trivial = not rejected for "
             "plain end-of-input; distinct = distinct request lines.",
     "exhaustive": False,
@@ -17,7 +19,8 @@ CFG = {
     "assumptions": COMMON_ASSUME,
     "level_text": "Theorem package_roundtrip: for EVERY byte string the parser model accepts (unbounded entry counts / store sizes, all 10 types), "
                   "write(parse bs) = canon bs (only the 4 reserved bytes of each intro and the signature padding zeroed), the written bytes parse to "
-                  "the same value and re-write identically; likewise for metadata, a single header and the lead. The model is tied to the code by a "
+                  "the same value and re-write identically; likewise for metadata, a single header and the lead; wf_fixpoint / cleared_fixpoint: the written "
+                  "bytes of every well-formed value, in particular of a parsed package whose signature header was cleared or is new_empty(), are a fixpoint. The model is tied to the code by a "
                   "differential run over assets and structure-aware generated packages (observable: hash+length of written bytes, reparse-equal, rewrite-equal).",
     "level_note": "Trusted: Lean kernel; model fidelity as exercised (accept/reject class and written bytes compared on every case); std I/O and from_utf8_lossy semantics.",
 }
